@@ -19,50 +19,64 @@ VARIABLES open,       \* caller -> [kind, gids, delays, t] of the call in progre
           hadLoss,    \* a connect attempt failed or the connection was lost since the last success
           ncb,        \* number of registered reconnect callbacks (from the cfg event)
           hsent,      \* [g, t]: commands the host has put on the line, and when
+          txns,       \* [gids, delays] of every transaction ever started
           void,       \* the run left the environment assumption (stale data arrived while a command was in flight)
           devs
-cvars == <<open, seen, rtime, lastAtt, connected, closedAt, cbs, recon, hadLoss, ncb, hsent, void, devs>>
+cvars == <<open, seen, rtime, lastAtt, connected, closedAt, cbs, recon, hadLoss, ncb, hsent, txns, void, devs>>
 
 CInit == /\ open = {} /\ seen = <<>> /\ rtime = {} /\ lastAtt = 0 - 1 /\ connected = FALSE /\ closedAt = 0
          /\ cbs = <<>> /\ recon = FALSE /\ devs = {} /\ hadLoss = FALSE /\ ncb = 0 /\ hsent = {} /\ void = FALSE
+         /\ txns = {}
 
 TimeOf(g) == LET r == {x \in rtime : x.g = g} IN IF r = {} THEN 0 ELSE (CHOOSE x \in r : TRUE).t
 Pos(g) == LET r == {n \in 1 .. Len(seen) : seen[n] = g} IN IF r = {} THEN 0 ELSE CHOOSE n \in r : TRUE
 OpenOf(i) == CHOOSE x \in open : x.i = i
 
-Call(i, kind, gids, delays, t, faulty) ==
+(* exp[k]: a reply to the k-th command is expected (FALSE for writeline and for multicomm elements without reply) *)
+Call(i, kind, gids, delays, t, faulty, exp) ==
    /\ ~\E x \in open : x.i = i
-   /\ open' = open \cup {[i |-> i, kind |-> kind, gids |-> gids, delays |-> delays, t |-> t, faulty |-> faulty]}
+   /\ open' = open \cup {[i |-> i, kind |-> kind, gids |-> gids, delays |-> delays, t |-> t, faulty |-> faulty, exp |-> exp]}
+   /\ txns' = txns \cup {[gids |-> gids, delays |-> delays]}
    /\ UNCHANGED <<seen, rtime, lastAtt, connected, closedAt, cbs, recon, devs, hadLoss, ncb, hsent, void>>
 
-DevRecv(g, t) == /\ seen' = Append(seen, g) /\ rtime' = rtime \cup {[g |-> g, t |-> t]}
-                 /\ UNCHANGED <<open, lastAtt, connected, closedAt, cbs, recon, devs, hadLoss, ncb, hsent, void>>
+(* Atomic: inside a transaction the device receives nothing else between two consecutive commands; *)
+(* each delay of a multicomm lies between the two commands around it                                *)
+AtomicAt(g) == \A q \in txns : \A k \in 2 .. Len(q.gids) :
+                  q.gids[k] = g => (Len(seen) > 0 /\ seen[Len(seen)] = q.gids[k - 1])
+DelayedAt(g, t) == \A q \in txns : \A k \in 2 .. Len(q.gids) :
+                      q.gids[k] = g => t >= TimeOf(q.gids[k - 1]) + q.delays[k - 1]
+DevRecvBase(g, t) == /\ AtomicAt(g)
+                     /\ seen' = Append(seen, g) /\ rtime' = rtime \cup {[g |-> g, t |-> t]}
+                     /\ UNCHANGED <<open, lastAtt, connected, closedAt, cbs, recon, hadLoss, ncb, hsent, txns, void>>
+DevRecv(g, t) == DevRecvBase(g, t) /\ DelayedAt(g, t) /\ UNCHANGED devs
+Dev_DelayNotHonoured(g, t) == DevRecvBase(g, t) /\ ~DelayedAt(g, t) /\ devs' = devs \cup {"DelayNotHonoured"}
 DevClose(t) == /\ closedAt' = t /\ hadLoss' = TRUE
-               /\ UNCHANGED <<open, seen, rtime, lastAtt, connected, cbs, recon, devs, ncb, hsent, void>>
-Cfg(n) == ncb' = n /\ UNCHANGED <<open, seen, rtime, lastAtt, connected, closedAt, cbs, recon, devs, hadLoss, hsent, void>>
-HostSend(g, t) == hsent' = hsent \cup {[g |-> g, t |-> t]} /\ UNCHANGED <<open, seen, rtime, lastAtt, connected, closedAt, cbs, recon, devs, hadLoss, ncb, void>>
+               /\ UNCHANGED <<open, seen, rtime, lastAtt, connected, cbs, recon, devs, ncb, hsent, txns, void>>
+Cfg(n) == ncb' = n /\ UNCHANGED <<open, seen, rtime, lastAtt, connected, closedAt, cbs, recon, devs, hadLoss, hsent, txns, void>>
+HostSend(g, t) == hsent' = hsent \cup {[g |-> g, t |-> t]} /\ UNCHANGED <<open, seen, rtime, lastAtt, connected, closedAt, cbs, recon, devs, hadLoss, ncb, txns, void>>
 (* late or unsolicited bytes: the property speaks about data that arrived before a command was sent *)
 InFlight == \E c \in open : \E k \in 1 .. Len(c.gids) : \E h \in hsent : h.g = c.gids[k]
 Unsolicited == void' = (void \/ InFlight)
-               /\ UNCHANGED <<open, seen, rtime, lastAtt, connected, closedAt, cbs, recon, devs, hadLoss, ncb, hsent>>
+               /\ UNCHANGED <<open, seen, rtime, lastAtt, connected, closedAt, cbs, recon, devs, hadLoss, ncb, hsent, txns>>
 State(b) == /\ connected' = b
-            /\ UNCHANGED <<open, seen, rtime, lastAtt, closedAt, cbs, recon, devs, hadLoss, ncb, hsent, void>>
+            /\ UNCHANGED <<open, seen, rtime, lastAtt, closedAt, cbs, recon, devs, hadLoss, ncb, hsent, txns, void>>
 
-(* a transaction is contiguous and in order on the wire *)
-Contiguous(gids) == \A k \in 1 .. Len(gids) - 1 : Pos(gids[k]) > 0 /\ Pos(gids[k + 1]) = Pos(gids[k]) + 1
-Delayed(gids, delays) == \A k \in 1 .. Len(gids) - 1 : TimeOf(gids[k + 1]) >= TimeOf(gids[k]) + delays[k]
-
+Sel(g, e) == LET F[n \in 0 .. Len(g)] == IF n = 0 THEN <<>> ELSE IF e[n] THEN Append(F[n - 1], g[n]) ELSE F[n - 1]
+             IN F[Len(g)]
+SentAt(g) == LET r == {x \in hsent : x.g = g} IN IF r = {} THEN 0 ELSE (CHOOSE x \in r : TRUE).t
 RetOkBase(i, got) ==
    LET c == OpenOf(i) IN
    /\ \E x \in open : x.i = i
-   /\ got = (IF c.kind = "write" THEN <<>> ELSE c.gids)          \* Paired / NoStale: exactly the own replies, in order
-   /\ \A k \in 1 .. Len(c.gids) : Pos(c.gids[k]) > 0             \* every command reached the device
-   /\ Contiguous(c.gids)                                         \* Atomic
+   /\ got = Sel(c.gids, c.exp)                                   \* Paired / NoStale: exactly the own expected replies, in order
+   /\ closedAt >= 0                                              \* not through a connection whose identification failed
+   /\ \A k \in 1 .. Len(c.gids) : c.exp[k] => Pos(c.gids[k]) > 0 \* every answered command reached the device
+   /\ \A k \in 1 .. Len(c.gids) : \E h \in hsent : h.g = c.gids[k]   \* every command was put on the line
    /\ open' = {x \in open : x.i # i}
-   /\ UNCHANGED <<seen, rtime, lastAtt, connected, closedAt, cbs, recon, hadLoss, ncb, hsent, void>>
-RetOk(i, got) == RetOkBase(i, got) /\ Delayed(OpenOf(i).gids, OpenOf(i).delays) /\ UNCHANGED <<devs, hadLoss, ncb, hsent, void>>
-Dev_DelayNotHonoured(i, got) == RetOkBase(i, got) /\ ~Delayed(OpenOf(i).gids, OpenOf(i).delays)
-                                /\ devs' = devs \cup {"DelayNotHonoured"}
+   /\ UNCHANGED <<seen, rtime, lastAtt, connected, closedAt, cbs, recon, hadLoss, ncb, hsent, txns, void>>
+(* the delay after the last command of a transaction has passed when the call returns *)
+LastDelayOK(i, t) == LET c == OpenOf(i) IN t >= SentAt(c.gids[Len(c.gids)]) + c.delays[Len(c.gids)]
+RetOk(i, got, t) == RetOkBase(i, got) /\ LastDelayOK(i, t) /\ UNCHANGED devs
+Dev_LastDelayNotHonoured(i, got, t) == RetOkBase(i, got) /\ ~LastDelayOK(i, t) /\ devs' = devs \cup {"DelayNotHonoured"}
 
 (* a failing call: communication error, in time, and the state is visible *)
 SentTimes(c) == {h.t : h \in {x \in hsent : \E k \in 1 .. Len(c.gids) : x.g = c.gids[k]}}
@@ -76,7 +90,7 @@ RetFail(i, exc, t) ==
       ELSE t <= LastSent(c) + Timeout + Period                          \* FailsInTime, counted from the last send
    /\ (closedAt > 0 /\ t >= closedAt) => ~connected              \* StateVisible once the loss was hit
    /\ open' = {x \in open : x.i # i}
-   /\ UNCHANGED <<seen, rtime, lastAtt, connected, closedAt, cbs, recon, devs, hadLoss, ncb, hsent, void>>
+   /\ UNCHANGED <<seen, rtime, lastAtt, connected, closedAt, cbs, recon, devs, hadLoss, ncb, hsent, txns, void>>
 
 (* connection attempts *)
 AttemptBase(ok, t) ==
@@ -86,17 +100,24 @@ AttemptBase(ok, t) ==
    /\ hadLoss' = (IF ok THEN FALSE ELSE TRUE)
    /\ cbs' = (IF ok THEN <<>> ELSE cbs)
    /\ (recon => Len(cbs) = ncb)                                  \* previous reconnect ran all its callbacks
-   /\ UNCHANGED <<open, seen, rtime, connected, ncb, hsent, void>>
+   /\ UNCHANGED <<open, seen, rtime, connected, ncb, hsent, txns, void>>
 Attempt(ok, t) == (lastAtt < 0 \/ t >= lastAtt + PollInt) /\ AttemptBase(ok, t) /\ UNCHANGED devs
 Dev_NoRateLimit(ok, t) == lastAtt >= 0 /\ t < lastAtt + PollInt /\ AttemptBase(ok, t)
                           /\ devs' = devs \cup {"NoRateLimit"}
+(* the identification exchange after a successful transport connect failed: the attempt counts as failed *)
+IdentFail == /\ recon' = FALSE /\ hadLoss' = TRUE /\ cbs' = <<>>
+             /\ closedAt' = 0 - 1                                 \* a device that is not the expected one counts as not connected
+             /\ UNCHANGED <<open, seen, rtime, lastAtt, connected, devs, ncb, hsent, txns, void>>
+(* the user switched the connection off (is_connected := FALSE): the next successful attempt is a reconnect *)
+UserDisc == /\ hadLoss' = TRUE
+            /\ UNCHANGED <<open, seen, rtime, lastAtt, connected, closedAt, cbs, recon, devs, ncb, hsent, txns, void>>
 Callback(name) == /\ recon /\ ~\E n \in 1 .. Len(cbs) : cbs[n] = name     \* at most once per reconnect
                   /\ cbs' = Append(cbs, name)
-                  /\ UNCHANGED <<open, seen, rtime, lastAtt, connected, closedAt, recon, devs, hadLoss, ncb, hsent, void>>
+                  /\ UNCHANGED <<open, seen, rtime, lastAtt, connected, closedAt, recon, devs, hadLoss, ncb, hsent, txns, void>>
 
 EndOK(conn, unfinished) == /\ unfinished = <<>>
                            /\ (recon => Len(cbs) = ncb)
                            /\ UNCHANGED cvars
 Dev_NeverReturns(unfinished) == /\ unfinished # <<>> /\ devs' = devs \cup {"NoTimeoutOnTrickle"}
-                                /\ UNCHANGED <<open, seen, rtime, lastAtt, connected, closedAt, cbs, recon, hadLoss, ncb, hsent, void>>
+                                /\ UNCHANGED <<open, seen, rtime, lastAtt, connected, closedAt, cbs, recon, hadLoss, ncb, hsent, txns, void>>
 =============================================================================
